@@ -49,6 +49,11 @@ BAD_LINES = [
   ('long-500', b'a' * 500),
   ('utf8-long', b'\xff' * 450 + b' 1 1'),
   ('long-3-fields-bad-number', b'a' * 450 + b' x 1'),
+  # malformed text is echoed into log messages: characters that mean something to printf / str.format / repr
+  ('percent-value', b'cpu.load 95% 101'),
+  ('percent-directives', b'%s %d %(x)s %'),
+  ('brace-fields', b'a {0} {x} {'),
+  ('backslash-quote', b'a \\x \'"1'),
 ]
 OVERLONG_LINE = ('line-over-16384', b'a' * 16390 + b' 1 1')
 
@@ -71,6 +76,7 @@ def bad_frames():
     ('top-float', P(1.5)),
     ('global-os-system', pk.prog(pk.g_global('os', 'system') + pk.tup(pk.s('true')) + b'R', 2)),
     ('global-in-metric', pk.prog(pk.lst(pk.tup(pk.g_global('os', 'system'), pk.tup(pk.i(1), pk.f(1.0)))), 2)),
+    ('global-percent-name', pk.prog(pk.g_global('100%s', '%d{0}'), 2)),
   ]
   return out
 
@@ -91,6 +97,8 @@ def bad_entries():
     ('metric-bytes', (b'a', (1, 2.0))),
     ('metric-list', (['a'], (1, 2.0))),
     ('value-str', ('a', (1, 'x'))),
+    ('value-percent-str', ('a', (1, '%s%d{0}'))),
+    ('entry-percent-str', '%s %d {0}'),
     ('value-none', ('a', (1, None))),
     ('value-list', ('a', (1, [2]))),
     ('value-10**400', ('a', (1, 10 ** 400))),
